@@ -280,6 +280,54 @@ Section P.
   Proof. intros f s ids f' s' r H. unfold Repair.repair_in in H. eapply frame_loop; eauto. Qed.
 
 
+  (* ---- repair() keeps the caches sound (the unvalidated lookup is not stored any more) *)
+  Lemma get_statepoint_false_sound : forall f s i s' r,
+    Inv f s -> get_statepoint f s false i = (s', r) -> sound (s_cache s').
+  Proof.
+    intros f s i s' r H E. unfold Cache.get_statepoint in E.
+    pose proof (ensure_read_sound frepr f s H) as H1.
+    destruct (alookup i (s_cache (ensure_read f s))); [inversion E; subst; auto|].
+    destruct (sp_from_ws f false i); cbv iota in E; inversion E; subst; auto.
+  Qed.
+
+  Lemma reinit_inv : forall f s sp f' s' ok, Inv f s -> reinit f s sp = (f', s', ok) -> Inv f' s'.
+  Proof.
+    intros f s sp f' s' ok H E.
+    pose proof (frame_reinit _ _ _ _ _ _ E) as [W _].
+    apply (Inv_ws_only frepr f f' s' (proj2 H) W).
+    unfold Repair.reinit in E.
+    destruct (jinit false f s sp) as [[f2 s2] [u|e]] eqn:E1.
+    - inversion E; subst. eapply jinit_sound; [exact (proj1 H)|exact E1].
+    - pose proof (jinit_sound frepr loads_b _ _ _ _ _ _ _ (proj1 H) E1) as H2.
+      destruct (jinit true f2 s2 sp) as [[f3 s3] [u|e']] eqn:E2; inversion E; subst;
+        (eapply jinit_sound; [exact H2|exact E2]).
+  Qed.
+
+  Lemma loop_inv : forall ids f s corrupted f' s' r,
+    Inv f s -> repair_loop f s ids corrupted = (f', s', r) -> Inv f' s'.
+  Proof.
+    induction ids as [|i rest IH]; intros f s corrupted f' s' r H E; simpl in E.
+    - inversion E; subst. exact H.
+    - destruct (get_statepoint f s false i) as [s1 [sp|e]] eqn:Eg.
+      + assert (H1 : Inv f s1) by (split; [eapply get_statepoint_false_sound; eauto|exact (proj2 H)]).
+        destruct (relocate f i (Cache.cid frepr sp)) as [f1|] eqn:Em; [|eapply IH; eauto].
+        pose proof (frame_relocate _ _ _ _ Em) as [W1 _].
+        assert (H2 : Inv f1 s1) by (apply (Inv_ws_only frepr f f1 s1 (proj2 H1) W1); exact (proj1 H1)).
+        destruct (reinit f1 s1 sp) as [[f2 s2] ok] eqn:Er.
+        pose proof (reinit_inv _ _ _ _ _ _ H2 Er) as H3.
+        destruct sp; try (eapply IH; [exact H3|exact E]). eapply IH; [exact H2|exact E].
+      + eapply IH; [|exact E]. split; [eapply get_statepoint_false_sound; eauto|exact (proj2 H)].
+  Qed.
+
+  (* never accepted: after repair() — whatever its outcome — every entry of the session's cache and of the
+     cache file still hashes to its key, so no later open by id or update_cache can serve a foreign state point *)
+  Theorem repair_cache_sound : forall f s ids f' s' r,
+    Inv f s -> repair_in f s ids = (f', s', r) -> Inv f' s'.
+  Proof.
+    intros f s ids f' s' r H E. unfold Repair.repair_in in E. eapply loop_inv; [|exact E].
+    split; [apply read_cache_sound; exact H|exact (proj2 H)].
+  Qed.
+
   (* ================================================================ D. repair() restores *)
   (* the two decoders invert the file printer, and agree whenever the bytes decoder yields a value *)
   Hypothesis Hinv_s : forall v, loads_s (dumps frepr v) = Some v.
@@ -477,13 +525,14 @@ Section P.
   Qed.
 
   (* what an entry registered by Job.init looks like *)
-  Definition reg_ok (i0 : str) (d : json) : Prop := cid d = i0 /\ (is_objb d = true \/ d = JNull).
+  Definition reg_ok (i0 : str) (d : json) : Prop := cid d = i0 /\ is_objb d = true.
 
   Lemma sp_load_view_reg_ok : forall f i d v, sp_load_view f i = Ok (d, v) -> reg_ok i d.
   Proof.
     intros f i d v H. split; [eapply sp_load_view_valid; eauto|].
-    unfold Cache.sp_load_view in H. destruct (sp_load f i) as [d'|]; [|discriminate].
-    destruct d'; simpl in H; inversion H; subst; auto.
+    unfold Cache.sp_load_view in H. destruct (sp_load f i) as [d'|] eqn:E; [|discriminate].
+    destruct (sp_load_valid frepr loads_b f i d' E) as [_ Hnn].
+    destruct d'; simpl in H; inversion H; subst; auto; exfalso; apply Hnn; reflexivity.
   Qed.
 
   Lemma jinit_facts : forall force f s sp f' s' r, jinit force f s sp = (f', s', r) -> WsOk f ->
@@ -518,10 +567,7 @@ Section P.
            split; [intro Hv; rewrite (valid_ext f f' i0 (S1 i0)); exact Hv|]).
         * right. exists d. split; auto. eapply sp_load_view_reg_ok; eauto.
         * left. reflexivity.
-    - destruct (makedirs f (jdir i0)) as [f1|] eqn:Em; inversion H; subst; [|repeat split; auto; apply Hok].
-      destruct (makedirs_jdir_facts f i0 f' Em Hok) as [Hok1 [D1 [S1 T1]]].
-      split; [exact Hok1|]. split; [exact HC|]. split; [exact D1|]. split; [intros j _; apply S1|].
-      split; [intro Hv; rewrite (valid_ext f f' i0 (S1 i0)); exact Hv|auto].
+    - inversion H; subst. split; [exact Hok|]. repeat split; auto.
   Qed.
 
 
@@ -583,21 +629,19 @@ Section P.
     destruct (cache_file f) as [c|] eqn:E; simpl; auto. apply GoodE_dict_upd; auto. intros v Hv. eapply Hf; eauto.
   Qed.
 
-  Lemma GoodE_regs : forall i i0 s s', i <> cid JNull -> regs i0 s s' -> GoodE i (s_cache s) -> GoodE i (s_cache s').
+  Lemma GoodE_regs : forall i i0 s s', regs i0 s s' -> GoodE i (s_cache s) -> GoodE i (s_cache s').
   Proof.
-    intros i i0 s s' Hn R. induction R as [|s0 s1 d R IH Hrk]; intro Hg; auto.
+    intros i i0 s s' R. induction R as [|s0 s1 d R IH Hrk]; intro Hg; auto.
     destruct Hrk as [Hc Hd]. simpl. apply GoodE_aset; auto. intro E. subst i0. split; auto.
-    destruct Hd as [Hd|Hd]; auto. subst d. exfalso. apply Hn. symmetry. exact E.
   Qed.
 
-  Lemma get_statepoint_GoodE : forall i f s k s1 r, k <> i -> FileGood i f -> GoodE i (s_cache s) ->
+  Lemma get_statepoint_GoodE : forall i f s k s1 r, FileGood i f -> GoodE i (s_cache s) ->
     get_statepoint f s false k = (s1, r) -> GoodE i (s_cache s1).
   Proof.
-    intros i f s k s1 r Hk Hf Hg H. unfold Cache.get_statepoint in H.
+    intros i f s k s1 r Hf Hg H. unfold Cache.get_statepoint in H.
     pose proof (GoodE_ensure_read i f s Hf Hg) as H1.
     destruct (alookup k (s_cache (ensure_read f s))); [inversion H; subst; auto|].
-    destruct (sp_from_ws f false k); inversion H; subst; auto.
-    simpl. apply GoodE_aset; auto. congruence.
+    destruct (sp_from_ws f false k); cbv iota in H; inversion H; subst; auto.
   Qed.
 
   (* ---- valid jobs stay valid to the end of the loop *)
@@ -619,18 +663,18 @@ Section P.
         { destruct (str_eq_dec i (cid sp)) as [E|E]; [subst i; apply V2; exact V1|].
           rewrite (valid_ext f1 f2 i (S2 i E)). exact V1. }
         destruct sp; try (eapply IH; [exact Hr|exact Hok2|exact Hv2|exact H]).
-        inversion H; subst. exact V1.
-      + destruct e; try (inversion H; subst; exact Hv). eapply IH; eauto.
+        eapply IH; [exact Hr|exact Hok1|exact V1|exact H].
+      + eapply IH; eauto.
   Qed.
 
   (* ---- the main induction: a damaged job whose state point is in the cache validates afterwards *)
   Lemma loop_restores_cached : forall ids f s corrupted f' s' r i,
-    NoDup ids -> In i ids -> i <> cid JNull ->
+    NoDup ids -> In i ids ->
     WsOk f -> get f (jdir i) = Some Dir -> GoodE i (s_cache s) -> FileGood i f ->
-    repair_loop f s ids corrupted = (f', s', r) -> (forall e l, r <> RAbort e l) ->
+    repair_loop f s ids corrupted = (f', s', r) ->
     valid f' i = true.
   Proof.
-    induction ids as [|k rest IH]; intros f s corrupted f' s' r i Hnd Hin Hn Hok Hd Hg Hf H Hna; [contradiction|].
+    induction ids as [|k rest IH]; intros f s corrupted f' s' r i Hnd Hin Hok Hd Hg Hf H; [contradiction|].
     inversion Hnd as [|? ? Hk Hnd']; subst. simpl in H.
     destruct (str_eq_dec k i) as [->|Hki].
     - (* this job's turn *)
@@ -639,14 +683,14 @@ Section P.
       { unfold Cache.get_statepoint. rewrite Hx. reflexivity. }
       rewrite Eg in H. unfold Cache.cid in *. rewrite Hc in H.
       unfold Repair.relocate in H. rewrite str_eqb_refl in H.
-      destruct (reinit_restores f (ensure_read f s) x i Ho Hc Hn (proj1 Hok) Hd (proj1 (proj2 Hok i)) (proj2 (proj2 Hok i)))
+      destruct (reinit_restores f (ensure_read f s) x i Ho Hc (proj1 Hok) Hd (proj1 (proj2 Hok i)) (proj2 (proj2 Hok i)))
         as [f2 [s2 [Er Hv2]]].
       rewrite Er in H.
       destruct (reinit_facts _ _ _ _ _ _ Er Hok) as [Hok2 _].
-      destruct x; try discriminate. eapply loop_keeps_valid; [exact Hk|exact Hok2|exact Hv2|exact H].
+      destruct x; try discriminate Ho. eapply loop_keeps_valid; [exact Hk|exact Hok2|exact Hv2|exact H].
     - destruct Hin as [E|Hin]; [congruence|].
       destruct (get_statepoint f s false k) as [s1 [sp|e]] eqn:Eg.
-      + pose proof (get_statepoint_GoodE i f s k s1 _ Hki Hf Hg Eg) as Hg1.
+      + pose proof (get_statepoint_GoodE i f s k s1 _ Hf Hg Eg) as Hg1.
         destruct (relocate f k (Cache.cid frepr sp)) as [f1|] eqn:Em; [|eapply IH; eauto].
         destruct (relocate_facts _ _ _ _ Em Hok) as [Hok1 [C1 [D1 _]]].
         assert (Hd1 : get f1 (jdir i) = Some Dir) by (apply D1; auto).
@@ -654,23 +698,21 @@ Section P.
         destruct (reinit f1 s1 sp) as [[f2 s2] ok] eqn:Er.
         destruct (reinit_facts _ _ _ _ _ _ Er Hok1) as [Hok2 [C2 [D2 [_ [_ R2]]]]].
         assert (Hf2 : FileGood i f2) by (intros c v Hc; rewrite C2 in Hc; eapply Hf1; eauto).
-        pose proof (GoodE_regs i _ _ _ Hn R2 Hg1) as Hg2.
-        destruct sp; try (eapply IH; [exact Hnd'|exact Hin|exact Hn|exact Hok2|apply D2; exact Hd1|exact Hg2|exact Hf2|exact H|exact Hna]).
-        inversion H; subst. exfalso. eapply Hna; reflexivity.
-      + pose proof (get_statepoint_GoodE i f s k s1 _ Hki Hf Hg Eg) as Hg1.
-        destruct e; try (inversion H; subst; exfalso; eapply Hna; reflexivity). eapply IH; eauto.
+        pose proof (GoodE_regs i _ _ _ R2 Hg1) as Hg2.
+        destruct sp; try (eapply IH; [exact Hnd'|exact Hin|exact Hok2|apply D2; exact Hd1|exact Hg2|exact Hf2|exact H]).
+        eapply IH; [exact Hnd'|exact Hin|exact Hok1|exact Hd1|exact Hg1|exact Hf1|exact H].
+      + pose proof (get_statepoint_GoodE i f s k s1 _ Hf Hg Eg) as Hg1. eapply IH; eauto.
   Qed.
 
-  (* repair(): every damaged job whose state point is in the (sound) persistent cache validates afterwards —
-     PROVIDED the loop is not left by an exception (see repair_restores_refuted) *)
-  Theorem repair_restores_cached_partial : forall f s ids f' s' r i c sp,
-    NoDup ids -> In i ids -> i <> cid JNull ->
+  (* repair(): every damaged job whose state point is in the (sound) persistent cache validates afterwards *)
+  Theorem repair_restores_cached : forall f s ids f' s' r i c sp,
+    NoDup ids -> In i ids ->
     get f [WS] = Some Dir -> NoSpDirs f -> get f (jdir i) = Some Dir ->
     cache_file f = Some c -> In (i, sp) c -> (forall v, In (i, v) c -> cid v = i /\ is_objb v = true) ->
-    repair_in f s ids = (f', s', r) -> (forall e l, r <> RAbort e l) ->
+    repair_in f s ids = (f', s', r) ->
     valid f' i = true.
   Proof.
-    intros f s ids f' s' r i c sp Hnd Hin Hn Hw Hns Hd Hc Hsp Hgood H Hna.
+    intros f s ids f' s' r i c sp Hnd Hin Hw Hns Hd Hc Hsp Hgood H.
     unfold Repair.repair_in in H.
     assert (Hf : FileGood i f).
     { intros c' v Hc' Hv. rewrite Hc in Hc'. inversion Hc'; subst. apply Hgood. exact Hv. }
@@ -679,7 +721,6 @@ Section P.
     - unfold Cache.read_cache. rewrite Hc. simpl. apply GoodE_dict_upd; auto.
       right. apply (in_map fst) in Hsp. exact Hsp.
   Qed.
-
 
   (* ---- a misnamed directory with an intact file: whenever the loop reaches it in a state where its
      state point is not cached and the directory of its true id is free, it is moved there and validates *)
@@ -696,7 +737,7 @@ Section P.
     intros rest f s corrupted f' s' r j c v t Hok Hd Hmiss Hg Hb Ho Hc Htj Hfree Hch Hnr H.
     pose proof (Hagree _ _ Hb) as Hs.
     simpl in H.
-    assert (Eg : get_statepoint f s false j = (reg (ensure_read f s) j v, Ok v)).
+    assert (Eg : get_statepoint f s false j = (ensure_read f s, Ok v)).
     { unfold Cache.get_statepoint. rewrite Hmiss. unfold Cache.sp_from_ws. rewrite Hg, Hs. reflexivity. }
     rewrite Eg in H. unfold Cache.cid in *. rewrite Hc in H.
     assert (Hab : jdir j <> jdir t) by (intro E; inversion E; congruence).
@@ -717,7 +758,7 @@ Section P.
     { change (spf t) with (jdir t ++ [SPF]). rewrite (rename_dir_carry f (jdir j) (jdir t) f1 [SPF] Hd Hab Er). exact Hg. }
     assert (Hv1 : valid f1 t = true).
     { unfold Repair.valid. rewrite Hg1, Hs. unfold Cache.cid. rewrite Hc. apply str_eqb_refl. }
-    assert (Ei : reinit f1 (reg (ensure_read f s) j v) v = (f1, reg (ensure_read f s) j v, true)).
+    assert (Ei : reinit f1 (ensure_read f s) v = (f1, ensure_read f s, true)).
     { unfold Repair.reinit, Cache.jinit. rewrite Ho. simpl negb. cbv iota. unfold Cache.cid. rewrite Hc.
       assert (El : sp_load_view f1 t = Ok (v, v)).
       { unfold Cache.sp_load_view, Cache.sp_load. rewrite Hg1, Hb. unfold Cache.cid. rewrite Hc, str_eqb_refl.
@@ -729,7 +770,7 @@ Section P.
 
 End P.
 
-(* ================================================================ E. witnesses of the defects *)
+(* ================================================================ E. the former defect witnesses, now examples *)
 Definition w_bad : list N := [123%N].                       (* the text "{" : a truncated file *)
 Definition w_tab : list (list N * json) := [(dumps ex_fr ex_u0, ex_u0); (dumps ex_fr ex_u1, ex_u1)].
 Definition w_ls (b : list N) : option json := CorrC08.tab_lookup w_tab b.
@@ -738,62 +779,50 @@ Definition w_a : str := calc_id ex_fr ex_u0.
 Definition w_t : str := calc_id ex_fr ex_u1.
 Definition w_x : str := calc_id ex_fr (JInt 7).              (* some other well-formed id *)
 
-(* 1. repair aborts: job a has a truncated file, directory x holds the intact file of job t *)
+(* 1. job a has a truncated file, directory x holds the intact file of job t: in BOTH listing orders a is
+      reported and t is restored (before fix: bdc03b3 the order [a; x] left the loop at a) *)
 Definition w_fs1 : fs :=
   [([DOTSIGNAC], Dir); ([WS], Dir);
    ([WS; w_a], Dir); ([WS; w_a; SPF], File (mkContent w_bad None));
    ([WS; w_x], Dir); ([WS; w_x; SPF], File (sp_content ex_fr ex_u1))].
 
-Theorem repair_restores_refuted :
-  (* x is a misnamed directory with an intact file whose true id t is free ... *)
-  get w_fs1 (spf w_x) = Some (File (sp_content ex_fr ex_u1)) /\
-  w_lb (dumps ex_fr ex_u1) = DVal ex_u1 /\ calc_id ex_fr ex_u1 = w_t /\ w_t <> w_x /\
-  get w_fs1 (jdir w_t) = None /\ has_children w_fs1 (jdir w_t) = false /\
-  (* ... the loop reaches the unrecoverable job a first and is left by its JobsCorruptedError ... *)
-  (exists s', repair_in ex_fr w_ls w_lb w_fs1 fresh [w_a; w_x] = (w_fs1, s', RAbort EJobsCorrupted [w_a])) /\
-  (* ... and t does not validate afterwards, while in the other listing order it does *)
+Lemma ex_repair_continues :
   valid ex_fr w_ls w_fs1 w_t = false /\
-  (exists f' s' r, repair_in ex_fr w_ls w_lb w_fs1 fresh [w_x; w_a] = (f', s', r) /\ valid ex_fr w_ls f' w_t = true).
+  (exists f' s', repair_in ex_fr w_ls w_lb w_fs1 fresh [w_a; w_x] = (f', s', RCorrupt [w_a]) /\
+                 valid ex_fr w_ls f' w_t = true) /\
+  (exists f' s', repair_in ex_fr w_ls w_lb w_fs1 fresh [w_x; w_a] = (f', s', RCorrupt [w_a]) /\
+                 valid ex_fr w_ls f' w_t = true).
 Proof.
-  pose (res := repair_in ex_fr w_ls w_lb w_fs1 fresh [w_x; w_a]).
-  split; [vm_compute; reflexivity|]. split; [vm_compute; reflexivity|]. split; [unfold w_t; reflexivity|].
-  split; [vm_compute; discriminate|]. split; [vm_compute; reflexivity|]. split; [vm_compute; reflexivity|].
-  split; [vm_compute; eexists; reflexivity|]. split; [vm_compute; reflexivity|].
-  exists (fst (fst res)), (snd (fst res)), (snd res). split.
-  - unfold res. destruct (repair_in ex_fr w_ls w_lb w_fs1 fresh [w_x; w_a]) as [[? ?] ?]. reflexivity.
-  - vm_compute. reflexivity.
+  split; [vm_compute; reflexivity|]. split.
+  - pose (res := repair_in ex_fr w_ls w_lb w_fs1 fresh [w_a; w_x]).
+    exists (fst (fst res)), (snd (fst res)). split; vm_compute; reflexivity.
+  - pose (res := repair_in ex_fr w_ls w_lb w_fs1 fresh [w_x; w_a]).
+    exists (fst (fst res)), (snd (fst res)). split; vm_compute; reflexivity.
 Qed.
 
-(* 2. a directory named md5("null") without a state point file *)
+(* 2. a directory named md5("null") without a state point file: opening by id raises
+      (before fix: ae33aa8 it returned the empty mapping) *)
 Definition w_null : str := calc_id ex_fr JNull.
 Definition w_fs2 : fs := [([DOTSIGNAC], Dir); ([WS], Dir); ([WS; w_null], Dir)].
 
-Theorem open_by_id_never_wrong_refuted :
-  Inv ex_fr w_fs2 fresh /\
-  (exists s', open_sp_by_id ex_fr w_lb w_fs2 fresh w_null = (s', Ok (JObj []))) /\
-  calc_id ex_fr (JObj []) <> w_null.
-Proof.
-  split; [split; [apply sound_nil|intros c Hc; vm_compute in Hc; discriminate]|].
-  split; [vm_compute; eexists; reflexivity|vm_compute; discriminate].
-Qed.
+Lemma ex_null_raises : exists s', open_sp_by_id ex_fr w_lb w_fs2 fresh w_null = (s', Err EJobsCorrupted).
+Proof. vm_compute. eexists. reflexivity. Qed.
 
-(* 3. repair registers an unvalidated state point: directory x holds a copy of job a's file *)
+(* 3. directory x holds a copy of job a's file: repair reports x and does NOT keep x -> state point of a
+      (before fix: 3837846 the session served it for open_job(id=x)) *)
 Definition w_fs3 : fs :=
   [([DOTSIGNAC], Dir); ([WS], Dir);
    ([WS; w_a], Dir); ([WS; w_a; SPF], File (sp_content ex_fr ex_u0));
    ([WS; w_x], Dir); ([WS; w_x; SPF], File (sp_content ex_fr ex_u0))].
 
-Theorem repair_cache_sound_refuted :
-  Inv ex_fr w_fs3 fresh /\
+Lemma ex_no_poison :
   exists f' s', repair_in ex_fr w_ls w_lb w_fs3 fresh [w_x; w_a] = (f', s', RCorrupt [w_x]) /\
-                alookup w_x (s_cache s') = Some ex_u0 /\ calc_id ex_fr ex_u0 <> w_x /\
-                (exists s'', open_sp_by_id ex_fr w_lb f' s' w_x = (s'', Ok ex_u0)).
+                alookup w_x (s_cache s') = None /\
+                (exists s'', open_sp_by_id ex_fr w_lb f' s' w_x = (s'', Err EJobsCorrupted)).
 Proof.
-  split; [split; [apply sound_nil|intros c Hc; vm_compute in Hc; discriminate]|].
   pose (res := repair_in ex_fr w_ls w_lb w_fs3 fresh [w_x; w_a]).
   exists (fst (fst res)), (snd (fst res)).
-  split; [vm_compute; reflexivity|]. split; [vm_compute; reflexivity|].
-  split; [vm_compute; discriminate|vm_compute; eexists; reflexivity].
+  split; [vm_compute; reflexivity|]. split; [vm_compute; reflexivity|vm_compute; eexists; reflexivity].
 Qed.
 
 (* ================================================================ F. licence for the correspondence *)
